@@ -71,9 +71,13 @@ int Futex::wake_all() noexcept {
   }
   // Resume when remove nodes and get their ownership successfully.
   int waked = 0;
-  for (auto node = head; node != nullptr; node = node->next) {
+  for (auto node = head; node != nullptr;) {
+    // finish_released recycles the node's slot: a new awaiter may overwrite it
+    // at once, so the successor has to be read first
+    auto next = node->next;
     node->promise->resume(node->handle);
     box.finish_released(node->id);
+    node = next;
     waked++;
   }
   return waked;
